@@ -430,7 +430,16 @@ impl<'t, 'd> GGen<'t, 'd> {
                     _ => G::TryMapWith(b(a), p, self.tag()),
                 }
             }
-            10 => G::Rep(self.gen_rep(d, guarded)),
+            10 => {
+                if self.cfg.exactly && self.t.chance(1, 8) {
+                    // an IterParser that is not a repetition: into_iter() over the items of a value
+                    let a = self.gen(d, guarded);
+                    let k = self.t.weighted(&[2, 1, 1, 2, 2, 2, 1]) as u8;
+                    G::IntoIter(b(a), k)
+                } else {
+                    G::Rep(self.gen_rep(d, guarded))
+                }
+            }
             11 => {
                 let a = self.gen(d, guarded);
                 G::Validate(b(a), self.tag(), 1 + self.t.weighted(&[4, 1]) as u8)
@@ -815,7 +824,7 @@ pub fn sample(g: &G, t: &mut Tape, alpha: &[char], out: &mut Vec<char>, recs: &m
             sample(p, t, alpha, out, recs, depth);
         }
         Map(a, _) | To(a, _) | Ignored(a) | Filter(a, _) | TryMap(a, _, _) | TryMapWith(a, _, _)
-        | ToSlice(a) | ToSpan(a) | MapSpan(a) | MapSlice(a) | Unwrapped(a) | Validate(a, _, _)
+        | ToSlice(a) | ToSpan(a) | MapSpan(a) | MapSlice(a) | Unwrapped(a) | IntoIter(a, _) | Validate(a, _, _)
         | Labelled(a, _, _) | MapErr(a, _, _) | Memo(a) | Wrapped(a, _) | StPush(a, _) | StObs(a)
         | WithState(a, _) | WithCtx(a, _) | MapCtx(a, _) | CxObs(a) | Track(a, _) | Lazy(a) => {
             sample(a, t, alpha, out, recs, depth)
